@@ -317,6 +317,10 @@ pub enum Ev {
     CandRet(u32),
     DepsCall(u32),
     DepsRet(u32),
+    /// The future of a get_candidates / get_dependencies call was dropped before the provider
+    /// answered (cancellation, or a provider that abandons its own re-entrant cache query).
+    CandDropped(u32),
+    DepsDropped(u32),
     Filter(u32, bool),
     FilterRet(u32, bool),
     Sort(Vec<u32>),
@@ -365,6 +369,25 @@ pub struct Prov {
     /// observations made by re-entrant queries: (description, ok)
     pub reentrant_obs: RefCell<Vec<String>>,
     pub reentrant_queries: Cell<u64>,
+    /// if set (together with `reentrant_sort`), the provider polls some of its re-entrant cache
+    /// queries once and abandons them when they are not ready (a timeout / select! in real code)
+    pub abandon: Cell<bool>,
+    pub abandoned: Cell<u64>,
+}
+
+/// Logs that a provider call was dropped before it was answered.
+struct CallGuard<'a> {
+    prov: &'a Prov,
+    ev: Option<Ev>,
+}
+impl Drop for CallGuard<'_> {
+    fn drop(&mut self) {
+        if let Some(e) = self.ev.take() {
+            if let Ok(mut l) = self.prov.sched.log.try_borrow_mut() {
+                l.push(e);
+            }
+        }
+    }
 }
 
 impl Prov {
@@ -380,6 +403,8 @@ impl Prov {
             reentrant_sort: Cell::new(false),
             reentrant_obs: Default::default(),
             reentrant_queries: Cell::new(0),
+            abandon: Cell::new(false),
+            abandoned: Cell::new(0),
         }
     }
     pub fn with_sched(u: Rc<Universe>, sched: Rc<Sched>) -> Self {
@@ -482,7 +507,9 @@ impl DependencyProvider for Prov {
     async fn get_candidates(&self, name: NameId) -> Option<Candidates> {
         self.step();
         self.log(Ev::CandCall(name.0));
+        let mut guard = CallGuard { prov: self, ev: Some(Ev::CandDropped(name.0)) };
         self.pause(PAUSE_CANDS, Ev::CandCall(name.0)).await;
+        guard.ev = None;
         self.log(Ev::CandRet(name.0));
         let p = &self.u.pkgs[name.0 as usize];
         let c = p.candidates.as_ref()?;
@@ -516,7 +543,9 @@ impl DependencyProvider for Prov {
     async fn get_dependencies(&self, solvable: SolvableId) -> Dependencies {
         self.step();
         self.log(Ev::DepsCall(solvable.0));
+        let mut guard = CallGuard { prov: self, ev: Some(Ev::DepsDropped(solvable.0)) };
         self.pause(PAUSE_DEPS, Ev::DepsCall(solvable.0)).await;
+        guard.ev = None;
         self.log(Ev::DepsRet(solvable.0));
         match &self.u.solvs[solvable.0 as usize].deps {
             Deps::Unknown(r) => Dependencies::Unknown(StringId(*r)),
